@@ -17,6 +17,14 @@ def dummy_thr(frame, event, arg):
     return None
 
 
+def app_sys(frame, event, arg):
+    return None
+
+
+def app_thr(frame, event, arg):
+    return None
+
+
 HOST = '''
 def beat(n):
     m = n + 1
@@ -100,6 +108,10 @@ class LifeSystem:
     def hook_name(self, fn):
         if fn is None:
             return 'None'
+        if fn is app_sys:
+            return 'Other2'
+        if fn is app_thr:
+            return 'Other1'
         if fn is dummy_sys:
             return 'Other1'
         if fn is dummy_thr:
@@ -110,6 +122,11 @@ class LifeSystem:
 
     def start(self):
         self.deep.start()
+
+    def app_sets_hooks(self):
+        """The application (e.g. a debugger) installs its own trace functions while the agent is running."""
+        sys.settrace(app_sys)
+        threading.settrace(app_thr)
 
     def pending_snapshot(self):
         """Hand two snapshots to delivery that are still pending when shutdown flushes: the first one fails as soon
